@@ -5,7 +5,7 @@ import (
 	"fmt"
 	"os"
 
-	_ "github.com/bufbuild/bufverif/checks/c07"
+	"github.com/bufbuild/bufverif/checks/c07"
 	"github.com/bufbuild/bufverif/internal/evid"
 )
 
@@ -16,6 +16,15 @@ func main() {
 			os.Exit(f(args[2:]))
 		}
 		os.Exit(2)
+	}
+	if len(args) == 2 && args[0] == "fmt" {
+		b, err := os.ReadFile(args[1])
+		if err != nil {
+			fmt.Fprintln(os.Stderr, err)
+			os.Exit(2)
+		}
+		fmt.Print(c07.Debug(string(b)))
+		os.Exit(0)
 	}
 	if len(args) < 2 || args[0] != "check" {
 		fmt.Fprintln(os.Stderr, "usage: check <id> [--tier quick|thorough]")
